@@ -2,16 +2,10 @@
 # Re-runs every filed behaviour-preserving refactoring and every "freedom" patch against all
 # ten quick checks; every line must say QUIET. Development tool.
 cd /verif
-for d in refactorings/C*/; do
-  id=$(basename $d)
-  for p in C03 C05 C06 C07 C09 C10 C14 C16 C17 C18; do
-    line=$(./dev/mutcheck.sh /verif/$d/patch.diff $p | tail -1 | cut -c1-200)
-    case "$line" in SURVIVED*) echo "QUIET $id $p";; *) echo "ALARM $id $p :: $line";; esac
-  done
-done
-for f in refactorings/freedoms/*.patch; do
-  for p in C03 C05 C06 C07 C09 C10 C14 C16 C17 C18; do
-    line=$(./dev/mutcheck.sh /verif/$f $p | tail -1 | cut -c1-200)
-    case "$line" in SURVIVED*) echo "QUIET $(basename $f) $p";; *) echo "ALARM $(basename $f) $p :: $line";; esac
+ALL="C03 C05 C06 C07 C09 C10 C14 C16 C17 C18"
+for f in refactorings/C*/patch.diff refactorings/freedoms/*.patch; do
+  id=$(basename $(dirname $f)); [ "$id" = freedoms ] && id=$(basename $f)
+  ./dev/mutcheck.sh /verif/$f $ALL | cut -c1-200 | while read -r line; do
+    case "$line" in SURVIVED*) set -- $line; echo "QUIET $id $2";; *) echo "ALARM $id :: $line";; esac
   done
 done
